@@ -173,4 +173,34 @@ def convE (drop : Bool) (inRails outRails : List Rail) : List Ev → List TurnE 
     let r := turnE drop inRails outRails t es
     r.1 :: convE drop inRails outRails r.2 ts
 
+/-! ## Generation options of a call (Colang 1.0)
+
+`options={"rails": {"input": False}}` of a call is recorded as `ContextUpdate(generation_options=…)` in front of
+the call's events; `process user input` / `process bot message` run the rails only `if $generation_options is
+None or $generation_options.rails.input` (`.output`).  A call without options records nothing (messages API)
+or the defaults (state API: `GenerationOptions()` is created to return a `GenerationResponse`) — either way all
+rails are enabled for it.  So the configuration a turn runs under is that of ITS call. -/
+
+/-- the rails enabled for one call -/
+structure CallOpts where
+  input : Bool := true
+  output : Bool := true
+  deriving Repr, DecidableEq
+
+def callCfg (cfg : Cfg) (o : CallOpts) : Cfg :=
+  { cfg with inRails := if o.input then cfg.inRails else [], outRails := if o.output then cfg.outRails else [] }
+
+/-- a conversation whose calls carry their own generation options -/
+def convV1P (cfg : Cfg) : HistV1 → List (CallOpts × Turn) → List (List Step × Reply × HistV1)
+  | _, [] => []
+  | h, (o, t) :: ts =>
+    let r := turnV1 (callCfg cfg o) h t
+    r :: convV1P cfg r.2.2 ts
+
+def convEP (drop : Bool) (inRails outRails : List Rail) : List Ev → List (CallOpts × TurnE) → List TurnObs
+  | _, [] => []
+  | es, (o, t) :: ts =>
+    let r := turnE drop (if o.input then inRails else []) (if o.output then outRails else []) t es
+    r.1 :: convEP drop inRails outRails r.2 ts
+
 end NemoVerif.PipelineCtx
